@@ -637,6 +637,8 @@ func (n *BlockNode) Render(w io.Writer, ctx *RenderContext) error {
 		ctx.currentBlock, ctx.currentDefs, ctx.currentLevel = previousBlock, previousDefs, previousLevel
 	}()
 
+	defer ctx.enterBlockDef(defs[0])()
+
 	for _, node := range defs[0].body {
 		err := node.Render(w, ctx)
 		if err != nil {
@@ -654,6 +656,25 @@ func (ctx *RenderContext) addBlockDef(block *BlockNode) {
 	}
 	defs := ctx.blockDefs[block.name]
 	ctx.blockDefs[block.name] = append(defs[:len(defs):len(defs)], block)
+
+	// Remember which template the definition was written in: relative template
+	// names inside its body resolve against that template
+	if ctx.blockOwners == nil {
+		ctx.blockOwners = make(map[*BlockNode]*Template)
+	}
+	ctx.blockOwners[block] = ctx.lastLoadedTemplate
+}
+
+// enterBlockDef makes the template that owns a block definition the current template
+// while the definition renders; the returned function restores the previous one
+func (ctx *RenderContext) enterBlockDef(def *BlockNode) func() {
+	owner := ctx.blockOwners[def]
+	if owner == nil {
+		return func() {}
+	}
+	previous := ctx.lastLoadedTemplate
+	ctx.lastLoadedTemplate = owner
+	return func() { ctx.lastLoadedTemplate = previous }
 }
 
 // ExtendsNode represents an extends directive
@@ -693,18 +714,9 @@ func (n *ExtendsNode) Render(w io.Writer, ctx *RenderContext) error {
 		return fmt.Errorf("no template engine available to load parent template: %s", templateName)
 	}
 
-	// Handle relative paths for templates
-	resolvedName := templateName
-	if strings.HasPrefix(templateName, "./") || strings.HasPrefix(templateName, "../") {
-		// Get the directory of the current template
-		currentTemplate := ctx.engine.currentTemplate
-		if currentTemplate != "" {
-			// Extract the directory part of the current template
-			currentDir := filepath.Dir(currentTemplate)
-			// Join the directory with the relative path
-			resolvedName = filepath.Join(currentDir, templateName)
-		}
-	}
+	// A name written relative to a template ("./", "../") resolves against the
+	// directory of the template that contains the tag
+	resolvedName := ctx.resolveTemplateName(templateName)
 
 	// Load the parent template with resolved path
 	parentTemplate, err := ctx.engine.Load(resolvedName)
@@ -742,9 +754,26 @@ func (n *ExtendsNode) Render(w io.Writer, ctx *RenderContext) error {
 		}
 		parentCtx.blockDefs[name] = defs
 	}
+	for def, owner := range ctx.blockOwners {
+		if parentCtx.blockOwners == nil {
+			parentCtx.blockOwners = make(map[*BlockNode]*Template, len(ctx.blockOwners))
+		}
+		parentCtx.blockOwners[def] = owner
+	}
 
 	// Render the parent template with the updated context
 	return parentTemplate.nodes.Render(w, parentCtx)
+}
+
+// resolveTemplateName resolves a template name written relative to the template
+// that is currently being rendered in this context
+func (ctx *RenderContext) resolveTemplateName(name string) string {
+	if strings.HasPrefix(name, "./") || strings.HasPrefix(name, "../") {
+		if current := ctx.lastLoadedTemplate; current != nil && current.name != "" {
+			return filepath.Join(filepath.Dir(current.name), name)
+		}
+	}
+	return name
 }
 
 // IncludeNode represents an include directive
@@ -785,18 +814,9 @@ func (n *IncludeNode) Render(w io.Writer, ctx *RenderContext) error {
 		return fmt.Errorf("no template engine available to load included template: %s", templateName)
 	}
 
-	// Handle relative paths for templates
-	resolvedName := templateName
-	if strings.HasPrefix(templateName, "./") || strings.HasPrefix(templateName, "../") {
-		// Get the directory of the current template
-		currentTemplate := ctx.engine.currentTemplate
-		if currentTemplate != "" {
-			// Extract the directory part of the current template
-			currentDir := filepath.Dir(currentTemplate)
-			// Join the directory with the relative path
-			resolvedName = filepath.Join(currentDir, templateName)
-		}
-	}
+	// A name written relative to a template ("./", "../") resolves against the
+	// directory of the template that contains the tag
+	resolvedName := ctx.resolveTemplateName(templateName)
 
 	// Load the template with resolved path
 	template, err := ctx.engine.Load(resolvedName)
@@ -1100,6 +1120,7 @@ func (n *MacroNode) CallMacro(w io.Writer, ctx *RenderContext, args ...interface
 	// Create a new context for the macro
 	macroCtx := NewRenderContext(ctx.env, nil, ctx.engine)
 	macroCtx.parent = ctx
+	macroCtx.lastLoadedTemplate = ctx.lastLoadedTemplate
 
 	// Ensure context is released even in error paths
 	defer macroCtx.Release()
@@ -1178,18 +1199,9 @@ func (n *ImportNode) Render(w io.Writer, ctx *RenderContext) error {
 		return fmt.Errorf("no template engine available to load imported template: %s", templateName)
 	}
 
-	// Handle relative paths for templates
-	resolvedName := templateName
-	if strings.HasPrefix(templateName, "./") || strings.HasPrefix(templateName, "../") {
-		// Get the directory of the current template
-		currentTemplate := ctx.engine.currentTemplate
-		if currentTemplate != "" {
-			// Extract the directory part of the current template
-			currentDir := filepath.Dir(currentTemplate)
-			// Join the directory with the relative path
-			resolvedName = filepath.Join(currentDir, templateName)
-		}
-	}
+	// A name written relative to a template ("./", "../") resolves against the
+	// directory of the template that contains the tag
+	resolvedName := ctx.resolveTemplateName(templateName)
 
 	// Load the template with resolved path
 	template, err := ctx.engine.Load(resolvedName)
@@ -1208,7 +1220,8 @@ func (n *ImportNode) Render(w io.Writer, ctx *RenderContext) error {
 
 	// Create a new context for the imported template
 	importCtx := NewRenderContext(ctx.env, nil, ctx.engine)
-	// Set the template as the lastLoadedTemplate for relative path resolutionn	importCtx.lastLoadedTemplate = template
+	// Set the template as the lastLoadedTemplate for relative path resolution
+	importCtx.lastLoadedTemplate = template
 
 	// Ensure context is released even in error paths
 	defer importCtx.Release()
@@ -1269,18 +1282,9 @@ func (n *FromImportNode) Render(w io.Writer, ctx *RenderContext) error {
 		return fmt.Errorf("no template engine available to load imported template: %s", templateName)
 	}
 
-	// Handle relative paths for templates
-	resolvedName := templateName
-	if strings.HasPrefix(templateName, "./") || strings.HasPrefix(templateName, "../") {
-		// Get the directory of the current template
-		currentTemplate := ctx.engine.currentTemplate
-		if currentTemplate != "" {
-			// Extract the directory part of the current template
-			currentDir := filepath.Dir(currentTemplate)
-			// Join the directory with the relative path
-			resolvedName = filepath.Join(currentDir, templateName)
-		}
-	}
+	// A name written relative to a template ("./", "../") resolves against the
+	// directory of the template that contains the tag
+	resolvedName := ctx.resolveTemplateName(templateName)
 
 	// Load the template with resolved path
 	template, err := ctx.engine.Load(resolvedName)
@@ -1299,7 +1303,8 @@ func (n *FromImportNode) Render(w io.Writer, ctx *RenderContext) error {
 
 	// Create a new context for the imported template
 	importCtx := NewRenderContext(ctx.env, nil, ctx.engine)
-	// Set the template as the lastLoadedTemplate for relative path resolutionn	importCtx.lastLoadedTemplate = template
+	// Set the template as the lastLoadedTemplate for relative path resolution
+	importCtx.lastLoadedTemplate = template
 
 	// Ensure context is released even in error paths
 	defer importCtx.Release()
